@@ -29,8 +29,8 @@ func (k skind) directed() bool { return k == sDirected || k == sWeightedDirected
 func (k skind) weighted() bool { return k == sWeightedDirected || k == sWeightedUndirected }
 
 const (
-	simpleSelf   = -7.0 // Weight(x,x) of the weighted simple graphs
-	simpleAbsent = 0.5  // Weight of an absent edge
+	defSelf   = -7.0 // default Weight(x,x) of the weighted simple graphs
+	defAbsent = 0.5  // default Weight of an absent edge
 )
 
 // simpleG is the method set the four containers share.
@@ -44,7 +44,7 @@ type simpleG interface {
 	Edges() graph.Edges
 }
 
-func newSimpleG(k skind) (simpleG, func(tEdge)) {
+func newSimpleG(k skind, simpleSelf, simpleAbsent float64) (simpleG, func(tEdge)) {
 	switch k {
 	case sDirected:
 		g := simple.NewDirectedGraph()
@@ -64,9 +64,10 @@ func newSimpleG(k skind) (simpleG, func(tEdge)) {
 // sModel is the reference model: a set of nodes (with the tag of the node
 // object stored for the ID) and a map of edges to their weight/tag.
 type sModel struct {
-	directed bool
-	nodes    map[int64]int
-	edges    map[[2]int64]float64 // directed: (from,to); undirected: (min,max)
+	self, absent float64 // constructor parameters of the weighted graphs
+	directed     bool
+	nodes        map[int64]int
+	edges        map[[2]int64]float64 // directed: (from,to); undirected: (min,max)
 }
 
 func (m *sModel) ekey(u, v int64) [2]int64 {
@@ -119,6 +120,7 @@ func (m *sModel) removeNode(id int64) {
 // tag of an edge's end point node objects (the simple graphs keep the edge
 // value they were given, whose nodes carry the tag chosen at SetEdge time).
 func (m *sModel) view(name string, weighted bool, endTag func(w float64) int) *absModel {
+	simpleSelf, simpleAbsent := m.self, m.absent
 	a := &absModel{name: name, directed: m.directed, oriented: true, nodeTags: true, nodes: m.nodes}
 	a.edge = func(u, v int64) (absEdge, bool) {
 		w, ok := m.edges[m.ekey(u, v)]
@@ -150,6 +152,16 @@ type simpleCfg struct {
 	q       []int64   // IDs queried: U+ and absent IDs
 	weights []float64 // SetEdge weights (tags for the unweighted graphs)
 	tagByW  bool      // nodes created by SetEdge carry tag=int(w) (else tag 1)
+	// constructor parameters of the weighted graphs; params=false: defSelf, defAbsent
+	params       bool
+	self, absent float64
+}
+
+func (c *simpleCfg) selfAbsent() (float64, float64) {
+	if c.params {
+		return c.self, c.absent
+	}
+	return defSelf, defAbsent
 }
 
 type sInst struct {
@@ -201,8 +213,9 @@ func simpleOps(cfg *simpleCfg) []op {
 }
 
 func (y *simpleSys) newInst() *sInst {
-	g, set := newSimpleG(y.cfg.kind)
-	return &sInst{g: g, set: set, m: &sModel{directed: y.cfg.kind.directed(), nodes: map[int64]int{}, edges: map[[2]int64]float64{}}}
+	self, absent := y.cfg.selfAbsent()
+	g, set := newSimpleG(y.cfg.kind, self, absent)
+	return &sInst{g: g, set: set, m: &sModel{self: self, absent: absent, directed: y.cfg.kind.directed(), nodes: map[int64]int{}, edges: map[[2]int64]float64{}}}
 }
 
 func (y *simpleSys) keyOf(s *sInst) string {
@@ -397,7 +410,7 @@ func checkAdj(c *ctx, what string, a, mirror adj, live []int64, has func(u, v in
 
 // buildFresh builds a new container directly from the model state.
 func (y *simpleSys) buildFresh(m *sModel) simpleG {
-	g, set := newSimpleG(y.cfg.kind)
+	g, set := newSimpleG(y.cfg.kind, m.self, m.absent)
 	for _, id := range sortedIDs(m.nodes) {
 		g.AddNode(mkNode(id, m.nodes[id], ownSimple))
 	}
@@ -423,20 +436,57 @@ func (y *simpleSys) checkHeavy(c *ctx, s *sInst) {
 	checkAdapters(c, y.label, s.g, k.directed(), s.m.nodes, true, has, s.m.view(y.label, k.weighted(), y.endTag).weight, y.cfg.q)
 }
 
+func runSimple(t *vlib.T, cfg simpleCfg, param string, maxStates int, heavyEvery uint64) {
+	y := &simpleSys{cfg: cfg}
+	y.label, y.variant, y.param = cfg.kind.String(), cfg.variant, param
+	y.ops = simpleOps(&y.cfg)
+	y.col = newCollector()
+	y.checked = map[string]struct{}{}
+	y.maxStates = maxStates
+	y.heavyEvery = heavyEvery
+	runSearch(t, &y.base, vseq.System[*sInst]{
+		New:   y.newInst,
+		Apply: y.apply,
+		Key:   y.keyOf,
+		Check: y.check,
+	})
+}
+
 func genSimple(g *vlib.G, cfg simpleCfg, maxStates int, heavyEvery uint64) {
-	g.Case(cfg.kind.String()+" "+cfg.variant, func(t *vlib.T) {
-		y := &simpleSys{cfg: cfg}
-		y.label, y.variant = cfg.kind.String(), cfg.variant
-		y.ops = simpleOps(&y.cfg)
-		y.col = newCollector()
-		y.checked = map[string]struct{}{}
-		y.maxStates = maxStates
-		y.heavyEvery = heavyEvery
-		runSearch(t, &y.base, vseq.System[*sInst]{
-			New:   y.newInst,
-			Apply: y.apply,
-			Key:   y.keyOf,
-			Check: y.check,
-		})
+	g.Case(cfg.kind.String()+" "+cfg.variant, func(t *vlib.T) { runSimple(t, cfg, "", maxStates, heavyEvery) })
+}
+
+// dedupW removes repeated weights (NaN-aware).
+func dedupW(ws []float64) []float64 {
+	var out []float64
+	for _, w := range ws {
+		dup := false
+		for _, o := range out {
+			dup = dup || sameW(o, w)
+		}
+		if !dup {
+			out = append(out, w)
+		}
+	}
+	return out
+}
+
+// genSimpleSweep: one case = one search per (self, absent) combination of the
+// constructor NewWeighted*Graph(self, absent), both from paramValues. The edge
+// weights include the self and the absent value themselves: in the map backed
+// graphs such an edge exists like any other (Weight returns (w, true)).
+func genSimpleSweep(g *vlib.G, k skind, n int, selfs, absents []float64, variant string, heavyEvery uint64) {
+	g.Case(k.String()+" "+variant, func(t *vlib.T) {
+		searches := int64(0)
+		for _, self := range selfs {
+			for _, absent := range absents {
+				cfg := smallCfg(k, n, dedupW([]float64{2, absent, self}), false, variant)
+				cfg.params, cfg.self, cfg.absent = true, self, absent
+				runSimple(t, cfg, fmt.Sprintf("self=%s absent=%s", fmtW(self), fmtW(absent)), 0, heavyEvery)
+				searches++
+			}
+		}
+		t.Count("parameter_combinations", searches)
+		t.Outcome(k.String() + " parameter sweep")
 	})
 }
